@@ -15,13 +15,28 @@ func (m *Machine) needConcreteStr(s Str, what string) {
 // opaqueBool: the outcome of comparing text produced by a formatting stub is not
 // modelled: an arbitrary boolean (assertions that depend on it cannot be replayed and
 // are reported as inconclusive, never as violations).
-func (m *Machine) opaqueBool() *Term {
-	return m.ctx.Var(m.nondetName("opaque.compare"), SBool)
+func (m *Machine) opaqueBool(key string) *Term {
+	if m.opaqueMemo == nil {
+		m.opaqueMemo = map[string]*Term{}
+	}
+	if t, ok := m.opaqueMemo[key]; ok {
+		return t
+	}
+	t := m.ctx.Var(m.nondetName("opaque.compare"), SBool)
+	m.opaqueMemo[key] = t
+	return t
 }
 
 func (m *Machine) strEq(a, b Str) *Term {
 	if a.Opaque || b.Opaque {
-		return m.opaqueBool()
+		x, y := a.repr(), b.repr()
+		if x == y {
+			return trueT
+		}
+		if y < x {
+			x, y = y, x
+		}
+		return m.opaqueBool("eq|" + x + "|" + y)
 	}
 	if len(a.R) != len(b.R) {
 		return falseT
@@ -40,7 +55,15 @@ func (m *Machine) strEq(a, b Str) *Term {
 // strLess: lexicographic order by code point (== byte order for valid UTF-8).
 func (m *Machine) strLess(a, b Str, orEq bool) *Term {
 	if a.Opaque || b.Opaque {
-		return m.opaqueBool()
+		x, y := a.repr(), b.repr()
+		if x == y {
+			return mkBool(orEq)
+		}
+		// a < b and b <= a are complementary
+		if y < x {
+			return m.ctx.Not(m.opaqueBool(fmt.Sprintf("lt|%v|%s|%s", !orEq, y, x)))
+		}
+		return m.opaqueBool(fmt.Sprintf("lt|%v|%s|%s", orEq, x, y))
 	}
 	c := m.ctx
 	n := len(a.R)
